@@ -3,6 +3,7 @@
 package props
 
 import (
+	"io"
 	"strings"
 	"errors"
 	"fmt"
@@ -48,6 +49,9 @@ func genFrames(r *vk.RNG, maxN int) []Frame {
 			ts = int64(1700000000+r.Intn(1000)) * 1e9 // whole seconds
 		default:
 			ts = r.I64n(1<<63 - 1)
+		}
+		if i > 0 && r.Chance(1, 5) {
+			ts = frames[i-1].TS // the same instant again (a burst within one clock tick)
 		}
 		zone := 0
 		if r.Chance(1, 4) {
@@ -318,7 +322,7 @@ func runC03(r *vk.Run) {
 			for n < len(frames) && ends[n] <= at {
 				n++
 			}
-			plan := ReadPlan{Chunk: vk.Pick(c.Rng, []int{0, 1, 5}), FailAt: at, FailErr: ioErr}
+			plan := ReadPlan{Chunk: vk.Pick(c.Rng, []int{0, 1, 5}), FailAt: at, FailErr: []error{ioErr, fmt.Errorf("verif: read unix: %w", io.ErrUnexpectedEOF), fmt.Errorf("verif: stream closed: %w", io.EOF)}[at%3]}
 			d, l := decodeStream(data, plan, attrs)
 			c.Eval(1)
 			det := func() map[string]any {
